@@ -427,7 +427,22 @@ def exec_unrolled(ctx, st, items, env, cond):
     return outs
 
 
+def _normalise_do_while(st):
+    """`while True: B; if c: break`  ->  `while not c: B`  (symbolically: the exit condition is the one tested after the
+    body; the loop-carried values and the state at exit are the same)"""
+    if isinstance(st, ast.While) and isinstance(st.test, ast.Constant) and st.test.value is True and not st.orelse and st.body:
+        last = st.body[-1]
+        if isinstance(last, ast.If) and not last.orelse and len(last.body) == 1 and isinstance(last.body[0], ast.Break) \
+                and not any(isinstance(x, (ast.Break, ast.Continue)) for b in st.body[:-1] for x in ast.walk(b)):
+            new = ast.While(test=ast.UnaryOp(op=ast.Not(), operand=last.test), body=st.body[:-1] or [ast.Pass()], orelse=[])
+            ast.copy_location(new, st)
+            ast.fix_missing_locations(new)
+            return new
+    return st
+
+
 def exec_loop(ctx, st, env, cond):
+    st = _normalise_do_while(st)
     if ctx.unroll and isinstance(st, ast.For) and not st.orelse:
         items = iter_items(ev(ctx, st.iter, env))
         if items is not None and len(items) <= ctx.unroll and \
@@ -666,6 +681,12 @@ def ev(ctx, node, env):
             for k, v in base[1]:
                 if k == idx:
                     return v
+            keys = {k for k, _ in base[1]}
+            if keys == {("bool", True), ("bool", False)} and idx[0] != "bool":
+                # table[bool(flag)] / table[predicate]: a two-way selection
+                d = dict(base[1])
+                c = idx[2] if (idx[0] == "call" and idx[1] == "bool" and len(idx) == 3) else idx
+                return merge_phi(c, d[("bool", True)], d[("bool", False)])
         return ("idx", base, idx)
     if isinstance(node, ast.Attribute):
         if isinstance(node.value, ast.Name) and node.value.id == "self":
@@ -783,8 +804,8 @@ def global_value(ctx, modname, name, gnode):
                 return v                   # a small literal sequence introduced by a refactoring
         except AnalysisError:
             pass
-    if getattr(ctx, "unroll_while", 0) and isinstance(gnode, ast.Dict) and len(gnode.keys) <= 64 \
-            and all(isinstance(k, ast.Constant) for k in gnode.keys):
+    if isinstance(gnode, ast.Dict) and len(gnode.keys) <= 64 and all(isinstance(k, ast.Constant) for k in gnode.keys) \
+            and (getattr(ctx, "unroll_while", 0) or inv is None or name not in inv["globals"]):
         sub = Ctx(ctx.repo, modname)
         return ev(sub, gnode, {})             # small literal lookup table (unroll mode only)
     return ("sym", "%s.%s" % (modname, name))
@@ -888,7 +909,15 @@ def ev_call(ctx, node, env):
         else:
             args.append(v)
     kws = {k.arg: ev(ctx, k.value, env) for k in node.keywords if k.arg}
-    star_kw = [ev(ctx, k.value, env) for k in node.keywords if k.arg is None]
+    star_kw = []
+    for k in node.keywords:
+        if k.arg is None:
+            v = ev(ctx, k.value, env)
+            if v[0] == "dict" and all(kk[0] == "str" for kk, _ in v[1]):
+                for kk, vv in v[1]:            # f(**{"a": x})  ==  f(a=x)
+                    kws.setdefault(kk[1], vv)
+            else:
+                star_kw.append(v)
     # ---- plain names
     if isinstance(f, ast.Name):
         name = f.id
